@@ -86,6 +86,26 @@ pub fn gen_case(family: &str, i: u64, seed: u64, lim: &GenLimits) -> StaticCase 
         "dup" => gen::dup(&mut rng, 2, 7),
         "big-union" => gen::big_union(&mut rng, lim.big_min, lim.big_max, 9),
         "big-conn" => gen::big_conn(&mut rng, lim.big_min, lim.big_max),
+        // a small component with attacks next to a connected component of 64-150 arguments
+        "big-two" => {
+            let small = loop {
+                let c = gen::small_component(&mut rng, 5);
+                if !c.att.is_empty() {
+                    break c;
+                }
+            };
+            let big = gen::big_conn(&mut rng, 64, lim.big_max.max(90).min(150));
+            if rng.pct(50) {
+                // ids of the small component first (components are extracted by increasing smallest id)
+                let mut att = small.att.clone();
+                for (a, b) in big.att.iter() {
+                    att.push((small.n + a, small.n + b));
+                }
+                crate::refsem::Abs::new(small.n + big.n, att)
+            } else {
+                gen::union_of(&[small, big], &mut rng)
+            }
+        }
         "closed-form" => gen::closed_form(&mut rng, lim.big_min, lim.big_max).0,
         "empty" => Abs::new(0, vec![]),
         _ => panic!("harness: unknown family {}", family),
